@@ -106,6 +106,15 @@ class Mod:
                     except Unsupp:
                         pass
                     continue
+                if isinstance(n.value, ast.DictComp) or (isinstance(n.value, ast.Call) and isinstance(n.value.func, ast.Name)
+                                                          and n.value.func.id == 'dict'):
+                    # a table derived from other tables / constants ({v: k for k, v in OTHER.items()}, dict(zip(..)))
+                    try:
+                        v = self.safe_eval(n.value, want_dict=True)
+                        self.tables[name] = [(self.freeze(k), self.freeze(x)) for k, x in v.items()]
+                    except Unsupp:
+                        pass
+                    continue
                 try:
                     self.consts[name] = self.const_of(n.value)
                 except Unsupp:
@@ -169,9 +178,9 @@ class Mod:
     SAFE_NODES = (ast.Constant, ast.Name, ast.Load, ast.Store, ast.BinOp, ast.UnaryOp, ast.BoolOp, ast.Compare, ast.IfExp,
                   ast.Tuple, ast.List, ast.Dict, ast.Set, ast.Subscript, ast.Slice, ast.Attribute, ast.Call, ast.keyword,
                   ast.GeneratorExp, ast.ListComp, ast.SetComp, ast.DictComp, ast.comprehension, ast.operator, ast.unaryop,
-                  ast.boolop, ast.cmpop, ast.JoinedStr, ast.FormattedValue)
+                  ast.boolop, ast.cmpop, ast.JoinedStr, ast.FormattedValue, ast.Lambda, ast.arguments, ast.arg)
 
-    def safe_eval(self, e):
+    def safe_eval(self, e, want_dict=False):
         """value of a pure constant expression (literals, known constants, pure builtins, str methods,
         comprehensions): evaluated from the ast with no access to anything else"""
         bound = set()
@@ -180,9 +189,15 @@ class Mod:
                 raise Unsupp('constant expression %s' % ast.unparse(e)[:40])
             if isinstance(n, ast.Name) and isinstance(n.ctx, ast.Store):
                 bound.add(n.id)
+            if isinstance(n, ast.arg):
+                bound.add(n.arg)
+            if isinstance(n, ast.arguments) and (n.vararg or n.kwarg or n.kwonlyargs or n.defaults or n.kw_defaults):
+                raise Unsupp('constant expression %s' % ast.unparse(e)[:40])
             if isinstance(n, ast.Call):
                 f = n.func
                 if isinstance(f, ast.Name):
+                    if f.id in bound:
+                        raise Unsupp('constant expression calls the bound name %s' % f.id)
                     if f.id not in self.SAFE_BUILTINS:
                         raise Unsupp('constant expression calls %s' % f.id)
                 elif not (isinstance(f, ast.Attribute) and f.attr in self.SAFE_METHODS):
@@ -191,6 +206,12 @@ class Mod:
         for n in ast.walk(e):
             if isinstance(n, ast.Name) and isinstance(n.ctx, ast.Load) and n.id not in bound \
                     and n.id not in self.SAFE_BUILTINS and n.id not in env:
+                if n.id in self.tables and n.id not in self.consts:
+                    try:
+                        env[n.id] = dict(self.tables[n.id])
+                        continue
+                    except TypeError:
+                        raise Unsupp('table %s has unhashable keys' % n.id)
                 v = self.const_of(n)
                 if isinstance(v, tuple) and len(v) == 3 and v[0] == 'range':
                     v = list(range(v[1], v[2]))
@@ -214,6 +235,10 @@ class Mod:
             raise
         except Exception as ex:  # noqa
             raise Unsupp('constant expression %s: %s' % (ast.unparse(e)[:40], type(ex).__name__))
+        if want_dict:
+            if not isinstance(v, dict):
+                raise Unsupp('constant expression %s is not a dict' % ast.unparse(e)[:40])
+            return v
         return self.freeze(v)
 
     @staticmethod
@@ -404,6 +429,8 @@ class Ctx:
         self.retinfo = {'msgs': set(), 'other': False}
         self.aliases = {}      # python name -> (python message variable, field): x = msg.field
         self.fn = None         # the FunctionDef being translated (for "assigned once, never mutated" checks)
+        self.ipmi = 'self' if selfkind == 'ipmi' else None     # python name of the connection object in this body
+        self.clsnames = {}     # python name -> (Mod, class name): the `cls` parameter of an inlined classmethod
 
     def child_copy(self):
         c = Ctx(self.T, self.mod, self.depth, self.selfkind, self.cls)
@@ -413,6 +440,9 @@ class Ctx:
         c.retinfo = self.retinfo
         c.fn = self.fn
         c.aliases = self.aliases
+        c.ipmi, c.clsnames = self.ipmi, self.clsnames
+        if hasattr(self, 'clsmod'):
+            c.clsmod = self.clsmod
         return c
 
     def local(self, name):
@@ -428,6 +458,7 @@ class Translator:
         self.counter = 0
         self.tables_used = {}     # coq table name -> entries
         self.nstmts = 0
+        self.widened = False      # second attempt of an operation: constant tests folded, None arguments propagated
 
     def fresh(self, base):
         self.counter += 1
@@ -452,8 +483,13 @@ class Translator:
                 return self.expr_m(c.subst[e.id], c, pre)
             if e.id in c.msgs:
                 return ('msg', c.msgs[e.id])
+            if e.id in c.aliases and c.aliases[e.id][0] in c.msgs:
+                # a name for a sub-object of a message, read as a value: its content at this moment
+                return '(EField %s [%s])' % (q(c.msgs[c.aliases[e.id][0]]), q(c.aliases[e.id][1]))
             if e.id in c.names:
                 return '(EVar %s)' % q(c.names[e.id])
+            if c.ipmi is not None and e.id == c.ipmi:
+                raise Unsupp('the connection object is used as a value')
             try:
                 k = c.mod.const_of(e)
             except Unsupp:
@@ -534,6 +570,32 @@ class Translator:
                 pre.extend(body)
             c.subst = saved
             return '(EVar %s)' % q(tmp)
+        if isinstance(e, ast.DictComp) and len(e.generators) == 1 and not e.generators[0].is_async:
+            # {key: value for target in <static items> if cond} with constant string keys: unrolled dict building
+            g = e.generators[0]
+            items = self.static_items(g.iter, c)
+            if items is None:
+                raise Unsupp('comprehension over %s' % ast.unparse(g.iter)[:40])
+            tmp = self.fresh('comp')
+            pre.append('SNewObj %s "dict" []' % q(tmp))
+            saved = dict(c.subst)
+            for it in items:
+                c.subst.update(self.destructure(g.target, it))
+                key = self.const_name(e.key, c)
+                if not isinstance(key, str):
+                    raise Unsupp('dict comprehension with a non-constant key')
+                body = []
+                v = self.expr(e.value, c, body)
+                body.append('SSetKey %s %s %s' % (q(tmp), q(key), v))
+                for cond in reversed(g.ifs):
+                    cpre = []
+                    t = self.expr(cond, c, cpre)
+                    if cpre:
+                        raise Unsupp('call inside a comprehension condition')
+                    body = ['SIf %s [%s] []' % (t, '; '.join(body))]
+                pre.extend(body)
+            c.subst = saved
+            return '(EVar %s)' % q(tmp)
         raise Unsupp('expression %s' % type(e).__name__)
 
     @staticmethod
@@ -580,6 +642,17 @@ class Translator:
             chain.append(n.attr)
             n = n.value
         chain.reverse()
+        if isinstance(n, ast.Call):
+            # <call>.a[.b]: a message returned by an inlined helper / method, or an instance value
+            v = self.expr_m(n, c, pre)
+            if isinstance(v, tuple) and v[0] == 'msg':
+                if len(chain) > 2:
+                    raise Unsupp('message attribute chain %s' % ast.unparse(e)[:60])
+                return '(EField %s [%s])' % (q(v[1]), '; '.join(q(x) for x in chain))
+            out = v
+            for a in chain:
+                out = '(EAttr %s %s)' % (out, q(a))
+            return out
         if isinstance(n, ast.Name):
             base = n.id
             if base in c.subst and isinstance(c.subst[base], ast.Name):
@@ -591,7 +664,7 @@ class Translator:
                 if len(chain) > 2:
                     raise Unsupp('message attribute chain %s' % ast.unparse(e))
                 return '(EField %s [%s])' % (q(c.msgs[base]), '; '.join(q(x) for x in chain))
-            if base == 'self' and c.selfkind == 'ipmi':
+            if c.ipmi is not None and base == c.ipmi:
                 if len(chain) == 1:
                     # class-level constant of a mix-in (self.ACTIVATION_LOCK_SET)
                     for modname, cd, _ in self.R.classes:
@@ -604,8 +677,8 @@ class Translator:
                 # class constant, else instance attribute
                 if len(chain) == 1:
                     try:
-                        return self.const_expr(c.mod.class_const(c.cls, chain[0]))
-                    except Unsupp:
+                        return self.const_expr((getattr(c, 'clsmod', None) or c.mod).class_const(c.cls, chain[0]))
+                    except (Unsupp, KeyError):
                         pass
                 out = '(EVar %s)' % q(c.names['self'])
                 for a in chain:
@@ -636,6 +709,17 @@ class Translator:
                 v = None
             if isinstance(v, (str, int)) and not isinstance(v, bool):
                 return v
+        if isinstance(key, ast.Subscript) and not isinstance(key.slice, ast.Slice):
+            # row[0] with row bound to a literal tuple by unrolling
+            row = key.value
+            for _ in range(8):
+                if isinstance(row, ast.Name) and row.id in c.subst:
+                    row = c.subst[row.id]
+            i = self.const_name(key.slice, c)
+            if isinstance(row, (ast.Tuple, ast.List)) and isinstance(i, int) and not isinstance(i, bool) \
+                    and -len(row.elts) <= i < len(row.elts):
+                return self.const_name(row.elts[i], c)
+            return None
         if isinstance(key, ast.BinOp) and isinstance(key.op, ast.Mod):
             fmt = self.const_name(key.left, c)
             if isinstance(key.right, ast.Tuple):
@@ -688,6 +772,10 @@ class Translator:
                 key = self.const_name(e.args[1], c)
                 if not isinstance(key, str):
                     raise Unsupp('%s with a non-constant name' % name)
+                if name == 'hasattr' and len(e.args) == 2 and isinstance(e.args[0], ast.Name) and e.args[0].id == 'self' \
+                        and c.selfkind == 'obj' and key.startswith('__') and key.endswith('__'):
+                    # a class-level protocol attribute (__properties__): decided on the class chain
+                    return '(EConst %s)' % pv_of(self.class_level(c, key) is not None)
                 tgt = ast.Attribute(value=e.args[0], attr=key, ctx=ast.Load())
                 r = self.attribute(tgt, c, pre)
                 if name == 'hasattr' or len(e.args) == 3:
@@ -701,6 +789,10 @@ class Translator:
                     # getattr(msg, name, default): the field of the message class when it has one
                     return '(EIf %s %s %s)' % (has, r, self.expr(e.args[2], c, pre))
                 return r
+            if name in c.names or name in c.msgs or name in c.subst or name in c.aliases:
+                raise Unsupp('call of the local %s' % name)
+            if name in c.clsnames:
+                return self.construct(c.clsnames[name][0], c.clsnames[name][1], e, c, pre)
             if name in c.mod.funcs:
                 return self.inline_function(c.mod, c.mod.funcs[name], e, c, pre, selfkind=None)
             cls = self.find_class(c.mod, name)
@@ -709,7 +801,7 @@ class Translator:
             raise Unsupp('call of %s' % name)
         if isinstance(f, ast.Attribute):
             # self.method(...)
-            if isinstance(f.value, ast.Name) and f.value.id == 'self' and c.selfkind == 'ipmi':
+            if isinstance(f.value, ast.Name) and c.ipmi is not None and f.value.id == c.ipmi:
                 if f.attr == 'send_message':
                     if len(e.args) != 1 or e.keywords:
                         raise Unsupp('send_message with a retry argument')
@@ -737,6 +829,23 @@ class Translator:
             if f.attr == 'ljust' and len(e.args) == 2:
                 return '(ECall "ljust" [%s; %s; %s])' % (self.expr(f.value, c, pre), self.expr(e.args[0], c, pre),
                                                          self.expr(e.args[1], c, pre))
+            # Cls.method(...): a static / class method of a class of the package
+            if isinstance(f.value, ast.Name) and f.value.id not in c.names and f.value.id not in c.msgs \
+                    and f.value.id not in c.subst and f.value.id not in c.aliases:
+                hit = c.clsnames.get(f.value.id) or self.find_class(c.mod, f.value.id)
+                cm = self.class_method(hit[0], hit[1], f.attr) if hit is not None else None
+                if cm is not None:
+                    decs = [ast.unparse(d) for d in cm[2].decorator_list]
+                    if decs == ['staticmethod']:
+                        return self.inline_function(cm[0], cm[2], e, c, pre, selfkind=None, via_class=(hit, 0))
+                    if decs == ['classmethod']:
+                        return self.inline_function(cm[0], cm[2], e, c, pre, selfkind=None, via_class=(hit, 1))
+                    if not decs and c.selfkind == 'obj' and e.args and isinstance(e.args[0], ast.Name) and e.args[0].id == 'self' \
+                            and 'self' not in c.subst:
+                        # Base.method(self, ...) on the object under translation (constructor chains)
+                        e2 = ast.Call(func=f, args=list(e.args[1:]), keywords=list(e.keywords))
+                        return self.inline_function(cm[0], cm[2], e2, c, pre, selfkind='obj', cls=c.cls, self_expr=e.args[0],
+                                                    clsmod=getattr(c, 'clsmod', None) or c.mod)
             # method of an instance argument: resolved by a unique method name among the module's classes
             if isinstance(f.value, ast.Name) and (f.value.id in c.names):
                 cn = None
@@ -749,10 +858,12 @@ class Translator:
                               if any(isinstance(s, ast.FunctionDef) and s.name == f.attr for s in cd.body)]
                     if len(owners) == 1:
                         cn = owners[0]
-                hit = self.class_method(c.mod, cn, f.attr) if cn else None
+                own = f.value.id == 'self' and c.selfkind == 'obj'
+                cmod = (getattr(c, 'clsmod', None) or c.mod) if own else c.mod
+                hit = self.class_method(cmod, cn, f.attr) if cn else None
                 if hit is not None:
                     m, cd, fn = hit
-                    r = self.inline_function(m, fn, e, c, pre, selfkind='obj', cls=cn, self_expr=f.value)
+                    r = self.inline_function(m, fn, e, c, pre, selfkind='obj', cls=cn, self_expr=f.value, clsmod=cmod)
                     return r
             raise Unsupp('call %s' % src[:60])
         raise Unsupp('call %s' % src[:60])
@@ -794,11 +905,107 @@ class Translator:
         pre.append('SCheck %s' % q(rsp))
         return ('msg', rsp)
 
+    PURE_CALLEES = {'len', 'bool', 'int', 'list', 'tuple', 'bytes', 'bytearray', 'str', 'sum', 'min', 'max', 'sorted',
+                    'reversed', 'enumerate', 'zip', 'range', 'isinstance', 'ord', 'chr', 'hex', 'format', 'repr', 'abs',
+                    'ByteBuffer', 'array', 'any', 'all', 'map', 'filter', 'iter', 'next', 'print', 'type', 'id', 'divmod'}
+
+    @staticmethod
+    def static_none(a, c):
+        for _ in range(8):
+            if isinstance(a, ast.Name) and a.id in c.subst:
+                a = c.subst[a.id]
+        return isinstance(a, ast.Constant) and a.value is None
+
+    def handed_on(self, fn, name):
+        """the parameter is handed on as an argument of a call of a method / constructor / helper inside fn"""
+        for n in ast.walk(fn):
+            if isinstance(n, ast.Call) and not (isinstance(n.func, ast.Name) and n.func.id in self.PURE_CALLEES) \
+                    and any(isinstance(a, ast.Name) and a.id == name for a in list(n.args) + [k.value for k in n.keywords]):
+                return True
+        return False
+
+    def used_as_object(self, fn, name):
+        """is the local / parameter `name` of fn used as an OBJECT (attribute access, setattr/getattr/hasattr, handed on
+        to something that is not a pure builtin)?  Then a message sub-object bound to it is bound by reference."""
+        for n in ast.walk(fn):
+            if isinstance(n, ast.Attribute) and isinstance(n.value, ast.Name) and n.value.id == name:
+                return True
+            if isinstance(n, ast.Call):
+                args = list(n.args) + [k.value for k in n.keywords]
+                if any(isinstance(a, ast.Name) and a.id == name for a in args) or \
+                        any(isinstance(a, ast.Starred) and isinstance(a.value, ast.Name) and a.value.id == name for a in args):
+                    if not (isinstance(n.func, ast.Name) and n.func.id in self.PURE_CALLEES):
+                        return True
+        return False
+
+    def callee_param(self, call, c, name):
+        """(FunctionDef, parameter) that receives the local `name` in this call, when the callee can be resolved"""
+        f = call.func
+        fn, skip = None, 0
+        if isinstance(f, ast.Name) and f.id in c.mod.funcs and f.id not in c.names:
+            fn = c.mod.funcs[f.id]
+        elif isinstance(f, ast.Attribute) and isinstance(f.value, ast.Name):
+            if c.ipmi is not None and f.value.id == c.ipmi:
+                if f.attr in self.R.methods:
+                    fn, skip = self.R.methods[f.attr][1], 1
+            elif f.value.id not in c.names and f.value.id not in c.msgs:
+                hit = c.clsnames.get(f.value.id) or self.find_class(c.mod, f.value.id)
+                cm = self.class_method(hit[0], hit[1], f.attr) if hit is not None else None
+                if cm is not None:
+                    fn = cm[2]
+                    skip = 1 if any(ast.unparse(d) == 'classmethod' for d in fn.decorator_list) else 0
+        if fn is None:
+            return None
+        ps = [p.arg for p in fn.args.args][skip:]
+        for p_, a in zip(ps, call.args):
+            if isinstance(a, ast.Name) and a.id == name:
+                return fn, p_
+        for k in call.keywords:
+            if isinstance(k.value, ast.Name) and k.value.id == name and k.arg in ps:
+                return fn, k.arg
+        return None
+
+    def local_used_as_object(self, c, name):
+        """the local `name` (bound to an attribute of a message) is used as an object in this body: attribute access,
+        setattr / getattr / hasattr, or handed to a helper that uses its parameter as an object"""
+        for n in ast.walk(c.fn):
+            if isinstance(n, ast.Attribute) and isinstance(n.value, ast.Name) and n.value.id == name:
+                return True
+            if isinstance(n, ast.Call):
+                if isinstance(n.func, ast.Name) and n.func.id in ('setattr', 'getattr', 'hasattr', 'delattr') and n.args \
+                        and isinstance(n.args[0], ast.Name) and n.args[0].id == name:
+                    return True
+                hit = self.callee_param(n, c, name)
+                if hit is not None and self.used_as_object(hit[0], hit[1]):
+                    return True
+        return False
+
+    def msg_field_ref(self, a, c, seen=0):
+        """(python message variable of c, field) when the expression denotes the attribute `field` of a message object -
+        possibly a mutable sub-object (bit-field group) that Python passes by reference; else None"""
+        if seen > 8:
+            return None
+        if isinstance(a, ast.Name):
+            if a.id in c.subst:
+                return self.msg_field_ref(c.subst[a.id], c, seen + 1)
+            if a.id in c.aliases and c.aliases[a.id][0] in c.msgs:
+                return c.aliases[a.id]
+            return None
+        if isinstance(a, ast.Attribute) and isinstance(a.value, ast.Name):
+            base = a.value.id
+            if base in c.subst and isinstance(c.subst[base], ast.Name):
+                base = c.subst[base].id
+            if base in c.msgs and base not in c.aliases:
+                return (base, a.attr)
+        return None
+
     def bind_params(self, fn, call, c, nc, pre, skip_self):
         """bind the parameters of fn in the new context nc from the call's arguments.  Constant arguments are
         propagated statically (when the callee never rebinds the parameter); surplus keyword arguments go to **kwargs
-        as a statically known dict (so that `for k, v in kwargs.items(): setattr(req, k, v)` unrolls)"""
-        params = fn.args.args[1:] if skip_self else fn.args.args
+        as a statically known dict (so that `for k, v in kwargs.items(): setattr(req, k, v)` unrolls).  The connection
+        object and sub-objects of messages (req.link_info) are bound BY REFERENCE (the parameter becomes another name
+        for them) when the callee uses the parameter as an object; a parameter that is rebound in that case is refused."""
+        params = fn.args.args[skip_self:]
         if fn.args.kwonlyargs:
             raise Unsupp('keyword-only parameters in %s' % fn.name)
         defaults = [None] * (len(params) - len(fn.args.defaults)) + list(fn.args.defaults)
@@ -825,10 +1032,30 @@ class Translator:
                 raise Unsupp('missing argument %s of %s' % (p.arg, fn.name))
             in_caller = p.arg in given
             src = c if in_caller else nc
+            if in_caller and isinstance(a, ast.Name) and c.ipmi is not None and a.id == c.ipmi and a.id not in c.subst:
+                # the connection object itself
+                if p.arg in rebound:
+                    raise Unsupp('%s rebinds the parameter that receives the connection object' % fn.name)
+                if nc.ipmi is not None:
+                    raise Unsupp('%s receives the connection object twice' % fn.name)
+                nc.ipmi = p.arg
+                continue
+            ref = self.msg_field_ref(a, c) if in_caller else None
+            if ref is not None and self.used_as_object(fn, p.arg):
+                if p.arg in rebound:
+                    raise Unsupp('%s rebinds a parameter bound to a sub-object of a message' % fn.name)
+                hidden = '%s$of$%s' % (p.arg, ref[0])
+                nc.msgs[hidden] = c.msgs[ref[0]]
+                nc.aliases[p.arg] = (hidden, ref[1])
+                continue
             if p.arg not in rebound:
                 k = self.const_name(a, src)
                 if isinstance(k, (str, int)) and not isinstance(a, ast.Name):
                     nc.subst[p.arg] = ast.Constant(value=k)
+                    continue
+                if self.widened and self.static_none(a, src) and self.handed_on(fn, p.arg):
+                    # None for a parameter that the callee hands on (`if rsp: self.decode(rsp)`): known statically
+                    nc.subst[p.arg] = ast.Constant(value=None)
                     continue
             v = self.expr_m(a, src, pre)
             if isinstance(v, tuple) and v[0] == 'msg':
@@ -850,15 +1077,26 @@ class Translator:
                 raise Unsupp('**kwargs rebound in %s' % fn.name)
             nc.dicts[fn.args.kwarg.arg] = entries
 
-    def inline_function(self, mod, fn, call, c, pre, selfkind, cls=None, self_expr=None):
+    def inline_function(self, mod, fn, call, c, pre, selfkind, cls=None, self_expr=None, via_class=None, clsmod=None):
+        """via_class = ((Mod, class name), n): fn is a static (n = 0) / class (n = 1) method called as Cls.fn(...)"""
         if c.depth >= MAX_INLINE:
             raise Unsupp('inlining depth')
         if any(isinstance(n, (ast.Yield, ast.YieldFrom)) for n in ast.walk(fn)):
             raise Unsupp('generator %s' % fn.name)
-        if any(ast.unparse(d) in ('staticmethod', 'classmethod', 'property') for d in fn.decorator_list):
+        if fn.decorator_list and via_class is None:
             raise Unsupp('decorated %s' % fn.name)
+        if getattr(fn.args, 'posonlyargs', None):
+            raise Unsupp('positional-only parameters in %s' % fn.name)
         nc = Ctx(self, mod, c.depth + 1, selfkind, cls)
         nc.fn = fn
+        if clsmod is not None:
+            nc.clsmod = clsmod          # the module in which the dynamic class of self is defined (mod = where fn is)
+        if via_class is not None and via_class[1] == 1:
+            clsparam = fn.args.args[0].arg if fn.args.args else None
+            if clsparam is None or any(isinstance(n, ast.Name) and n.id == clsparam and isinstance(n.ctx, (ast.Store, ast.Del))
+                                       for n in ast.walk(fn)):
+                raise Unsupp('class method %s rebinds its class parameter' % fn.name)
+            nc.clsnames[clsparam] = via_class[0]
         if selfkind == 'obj':
             if isinstance(self_expr, ast.Name) and self_expr.id in c.names:
                 nc.names['self'] = c.names[self_expr.id]          # the same object, not a copy
@@ -867,7 +1105,7 @@ class Translator:
                 v = self.expr(self_expr, c, pre)
                 nc.names['self'] = self.fresh('self')
                 pre.append('SLet %s %s' % (q(nc.names['self']), v))
-        self.bind_params(fn, call, c, nc, pre, skip_self=selfkind is not None)
+        self.bind_params(fn, call, c, nc, pre, skip_self=(1 if selfkind is not None else 0) + (via_class[1] if via_class else 0))
         nc.ret = self.fresh('ret')
         pre.append('SLet %s (EConst PNone)' % q(nc.ret))
         pre.extend(self.block(self.strip_doc(fn.body), nc))
@@ -929,6 +1167,10 @@ class Translator:
         for m, cd in chain:
             for s in cd.body:
                 if isinstance(s, ast.Assign) and any(isinstance(t, ast.Name) and t.id == '__properties__' for t in s.targets):
+                    if not (isinstance(s.value, (ast.List, ast.Tuple)) and all(
+                            isinstance(x, (ast.Tuple, ast.List)) and x.elts and isinstance(x.elts[0], ast.Constant)
+                            and isinstance(x.elts[0].value, str) for x in s.value.elts)):
+                        raise Unsupp('%s.__properties__ is not a literal list of (name, ...) tuples' % cd.name)
                     props = [x.elts[0].value for x in s.value.elts]
                     break
             if props:
@@ -959,20 +1201,88 @@ class Translator:
         nc.fresh_obj = True
         nc.assigned = set()
         nc.shared = self.shared_mutables(mod, cname)
-        if init is None or init[1].name in ('State',):
-            # State.__init__(self, rsp=None)
-            self.state_init(mod, cname, call.args[0] if call.args else None, c, nc, pre)
+        decoder = self.state_decoder(init) if init is not None else None
+        if init is None:
+            # no constructor anywhere in the class chain: object.__init__ takes no arguments
+            if call.args or call.keywords:
+                raise Unsupp('%s() takes no arguments' % cname)
+        elif decoder is not None:
+            # FAST PATH - the constructor reached has the known form of state.State.__init__ (verified on the source, the
+            # name of the decoding method read from it): declared properties None (SNewObj above), then `if rsp: decode`
+            if len(call.args) > 1 or call.keywords:
+                raise Unsupp('%s constructed with other arguments than one response' % cname)
+            self.state_init(mod, cname, call.args[0] if call.args else None, c, nc, pre, decoder)
         else:
+            # FALLBACK - any other constructor is translated from its source like every other method
             im, icd, ifn = init
             nc.mod = im
-            self.bind_params(ifn, call, c, nc, pre, skip_self=True)
+            nc.clsmod = mod
+            self.bind_params(ifn, call, c, nc, pre, skip_self=1)
             nc.ret = self.fresh('ret')
             nc.fn = ifn
             pre.extend(self.block(self.strip_doc(ifn.body), nc))
         return '(EVar %s)' % q(obj)
 
-    def state_init(self, mod, cname, arg, c, nc, pre):
-        """DefaultProperties.__init__ (done by SNewObj) ; `if rsp: self._from_response(rsp)`"""
+    STATE_FORM = {
+        'defaults': "if hasattr(self, '__properties__'):\n    for prop in self.__properties__:\n        setattr(self, prop[0], None)",
+    }
+
+    def state_decoder(self, init):
+        """init = (Mod, ClassDef, FunctionDef) of the constructor that Cls(rsp) reaches.  If it has the form
+               def __init__(self, rsp=None): A.__init__(self); B.__init__(self, rsp)
+        with A.__init__(self) = 'declared properties become None' and B.__init__(self, rsp=None) = `if rsp: self.<m>(rsp)`,
+        return the name <m> of the decoding method (read from the source, not assumed); else None."""
+        key = (init[0].rel, init[1].name)
+        cache = self.__dict__.setdefault('_state_forms', {})
+        if key in cache:
+            return cache[key]
+        cache[key] = None
+        im, icd, ifn = init
+        a = ifn.args
+        if a.vararg or a.kwarg or a.kwonlyargs or ifn.decorator_list or len(a.args) != 2 or len(a.defaults) != 1 \
+                or ast.unparse(a.defaults[0]) != 'None' or a.args[0].arg != 'self':
+            return None
+        rsp = a.args[1].arg
+        body = self.strip_doc(ifn.body)
+        if len(body) != 2 or not all(isinstance(x, ast.Expr) and isinstance(x.value, ast.Call) for x in body):
+            return None
+        bases = [b.id for b in icd.bases if isinstance(b, ast.Name)]
+        calls = []
+        for x in body:
+            f = x.value.func
+            if not (isinstance(f, ast.Attribute) and f.attr == '__init__' and isinstance(f.value, ast.Name)
+                    and f.value.id in bases and not x.value.keywords):
+                return None
+            hit = self.find_class(im, f.value.id)
+            cm = self.class_method(hit[0], hit[1], '__init__') if hit else None
+            if cm is None or cm[1].name != f.value.id or cm[2].decorator_list:
+                return None
+            calls.append(([ast.unparse(y) for y in x.value.args], cm[2]))
+        (a1, f1), (a2, f2) = calls
+        if a1 != ['self'] or a2 != ['self', rsp]:
+            return None
+        if [p.arg for p in f1.args.args] != ['self'] or f1.args.vararg or f1.args.kwarg or f1.args.kwonlyargs:
+            return None
+        if '\n'.join(ast.unparse(x) for x in self.strip_doc(f1.body)) != self.STATE_FORM['defaults']:
+            return None
+        g = f2.args
+        if g.vararg or g.kwarg or g.kwonlyargs or len(g.args) != 2 or g.args[0].arg != 'self' or len(g.defaults) != 1 \
+                or ast.unparse(g.defaults[0]) != 'None':
+            return None
+        r2 = g.args[1].arg
+        b2 = self.strip_doc(f2.body)
+        if len(b2) != 1 or not isinstance(b2[0], ast.If) or b2[0].orelse or ast.unparse(b2[0].test) != r2 or len(b2[0].body) != 1:
+            return None
+        st = b2[0].body[0]
+        if not (isinstance(st, ast.Expr) and isinstance(st.value, ast.Call) and isinstance(st.value.func, ast.Attribute)
+                and isinstance(st.value.func.value, ast.Name) and st.value.func.value.id == 'self'
+                and [ast.unparse(y) for y in st.value.args] == [r2] and not st.value.keywords):
+            return None
+        cache[key] = st.value.func.attr
+        return cache[key]
+
+    def state_init(self, mod, cname, arg, c, nc, pre, decoder):
+        """the known form of State.__init__: declared properties None (done by SNewObj) ; `if rsp: self.<decoder>(rsp)`"""
         if arg is None:
             return
         v = self.expr_m(arg, c, pre)
@@ -980,10 +1290,12 @@ class Translator:
             # a non-message argument (SelEntry(data), ...): outside the fragment
             raise Unsupp('%s constructed from a non-message value' % cname)
         mv = v[1]
-        fr = self.class_method(mod, cname, '_from_response') or self.class_method(mod, cname, '_from_rsp')
+        fr = self.class_method(mod, cname, decoder)
         if fr is None:
-            raise Unsupp('%s has no _from_response' % cname)
+            raise Unsupp('%s has no %s' % (cname, decoder))
         fm, fcd, ffn = fr
+        if ffn.decorator_list or len(ffn.args.args) != 2 or ffn.args.vararg or ffn.args.kwarg or ffn.args.kwonlyargs:
+            raise Unsupp('%s.%s has an unexpected signature' % (cname, decoder))
         nc2 = Ctx(self, fm, nc.depth, 'obj', cname)
         nc2.names['self'] = nc.names['self']
         nc2.objcls['self'] = cname
@@ -993,6 +1305,21 @@ class Translator:
         nc2.ret = self.fresh('ret')
         nc2.fn = ffn
         pre.extend(self.block(self.strip_doc(ffn.body), nc2))
+
+    def next_init(self, c):
+        """the constructor that super().__init__ reaches from the constructor being translated (single inheritance along
+        the chain: the first __init__ among the classes after the defining class)"""
+        if c.selfkind != 'obj' or c.fn is None or c.fn.name != '__init__':
+            return None
+        chain = self.class_chain(getattr(c, 'clsmod', None) or c.mod, c.cls)
+        idx = [i for i, (m, cd) in enumerate(chain) if c.fn in cd.body]
+        if len(idx) != 1:
+            return None
+        for m, cd in chain[idx[0] + 1:]:
+            for s_ in cd.body:
+                if isinstance(s_, ast.FunctionDef) and s_.name == '__init__':
+                    return m, cd, s_
+        return None
 
     # ---- statements ----
     @staticmethod
@@ -1052,6 +1379,12 @@ class Translator:
                 return out + cont(c)
             if isinstance(s, ast.If):
                 test = self.expr(s.test, c, out)
+                static = {'(EConst (PBool true))': True, '(EConst (PBool false))': False, '(EConst PNone)': False}.get(test)
+                if static is not None and self.widened:
+                    # the test is a constant of the translation (hasattr on the class chain, a None default): the other
+                    # branch is dead code and need not be in the fragment
+                    live = s.body if static else s.orelse
+                    return out + self.block(list(live) + list(rest), c, k, brk, cont)
                 ca, cb = c.child_copy(), c.child_copy()
                 self.share_state(c, ca), self.share_state(c, cb)
                 if self.has_jump([s]):
@@ -1129,7 +1462,7 @@ class Translator:
     def class_level(self, c, attr):
         """the class-level assignment `attr = <expr>` visible as self.attr (value node), or None"""
         if c.selfkind == 'obj':
-            chain = self.class_chain(c.mod, c.cls)
+            chain = self.class_chain(getattr(c, 'clsmod', None) or c.mod, c.cls)
         else:
             chain = [(Mod.get(self.pkg, modname + '.py'), cd) for modname, cd, _ in self.R.classes]
         for m, cd in chain:
@@ -1175,6 +1508,36 @@ class Translator:
                         return None
                     return sorted(inner, key=lambda x: x.value)
                 return inner
+            if isinstance(f, ast.Name) and f.id == 'getattr' and len(it.args) == 3 and not it.keywords \
+                    and isinstance(it.args[0], ast.Name) and it.args[0].id == 'self' and c.selfkind == 'obj':
+                key = self.const_name(it.args[1], c)
+                if isinstance(key, str) and key.startswith('__') and key.endswith('__'):
+                    if self.class_level(c, key) is None:
+                        return self.static_items(it.args[2], c)
+                    return self.static_items(ast.Attribute(value=it.args[0], attr=key, ctx=ast.Load()), c)
+                return None
+            if not it.args and not it.keywords:
+                # a parameterless method of self / module-level function whose body is `return <literal tuple / list>`
+                # (the rows may mention self.<CONST> / module constants: evaluated where they are used - same names here)
+                lit = None
+                if isinstance(f, ast.Name) and f.id in c.mod.funcs and f.id not in c.names and f.id not in c.subst:
+                    lit = c.mod.funcs[f.id]
+                    if lit.args.args:
+                        lit = None
+                elif isinstance(f, ast.Attribute) and isinstance(f.value, ast.Name) and f.value.id == 'self':
+                    if c.selfkind == 'ipmi' and c.ipmi == 'self' and f.attr in self.R.methods:
+                        lit = self.R.methods[f.attr][1]
+                        if Mod.get(self.pkg, self.R.methods[f.attr][2] + '.py') is not c.mod:
+                            lit = None
+                    elif c.selfkind == 'obj':
+                        hit = self.class_method(c.mod, c.cls, f.attr)
+                        lit = hit[2] if hit is not None and hit[0] is c.mod else None
+                    if lit is not None and len(lit.args.args) != 1:
+                        lit = None
+                if lit is not None and not lit.decorator_list and not (lit.args.vararg or lit.args.kwarg or lit.args.kwonlyargs):
+                    body = self.strip_doc(lit.body)
+                    if len(body) == 1 and isinstance(body[0], ast.Return) and isinstance(body[0].value, (ast.Tuple, ast.List)):
+                        return list(body[0].value.elts)
             if isinstance(f, ast.Attribute) and f.attr in ('items', 'keys', 'values') and not it.args:
                 d = self.static_dict(f.value, c)
                 if d is None:
@@ -1306,8 +1669,18 @@ class Translator:
                     raise Unsupp('append on %s' % ast.unparse(tgt))
                 if isinstance(f, ast.Attribute) and isinstance(f.value, ast.Call) and ast.unparse(f.value.func) == 'super' \
                         and f.attr == '__init__':
-                    # super(X, self).__init__(rsp)
-                    self.state_init(c.mod, c.cls, v.args[0] if v.args else None, c, c, out)
+                    # super(X, self).__init__(rsp) inside the constructor of class X: the next constructor in the chain
+                    nxt = self.next_init(c)
+                    decoder = self.state_decoder(nxt) if nxt is not None else None
+                    if nxt is not None and decoder is None:
+                        # any other constructor: translated from its source, on the same object
+                        self.inline_function(nxt[0], nxt[2], v, c, out, selfkind='obj', cls=c.cls,
+                                             self_expr=ast.Name(id='self', ctx=ast.Load()),
+                                             clsmod=getattr(c, 'clsmod', None) or c.mod)
+                        return out
+                    if decoder is None or len(v.args) > 1 or v.keywords:
+                        raise Unsupp('super().__init__ reaches a constructor outside the fragment')
+                    self.state_init(getattr(c, 'clsmod', None) or c.mod, c.cls, v.args[0] if v.args else None, c, c, out, decoder)
                     return out
                 r = self.expr(v, c, out)        # inlined call, result dropped
                 return out
@@ -1355,9 +1728,8 @@ class Translator:
             out.append('SNewObj %s "dict" []' % q(lv))
             return out
         if (isinstance(t, ast.Name) and isinstance(value, ast.Attribute) and isinstance(value.value, ast.Name)
-                and value.value.id in c.msgs and c.fn is not None
-                and any(isinstance(n, ast.Attribute) and isinstance(n.value, ast.Name) and n.value.id == t.id
-                        for n in ast.walk(c.fn))):
+                and value.value.id in c.msgs and value.value.id not in c.aliases and c.fn is not None
+                and self.local_used_as_object(c, t.id)):
             # a name for a sub-object (bit-field) of a message: later x.bit means msg.field.bit - it is the same object
             if not self.assigned_once(c, t.id):
                 raise Unsupp('alias %s of a message field is rebound' % t.id)
@@ -1421,6 +1793,48 @@ class Translator:
                 return out
         raise Unsupp('assignment to %s' % ast.unparse(t)[:40])
 
+    # ---- by-value copies of message objects must not be mutated ----
+    @staticmethod
+    def check_copies(body):
+        """FAIL CLOSED on reference semantics.  `SLet x (EField m [f])` / `SLet x (EMsg m)` bind x to a COPY of what may be a
+        mutable object in Python (a bit-field group of a message, the message itself).  Where the translator knows that
+        the name is used as an object it binds it by reference instead (aliases); if nevertheless a statement mutates such
+        a copy (SSetAttr / SAppend / SAppendAttr / SSetKey on it, or on a local it was copied to), the Python code changes
+        the message and the model would not: the operation is refused.  Local names are unique within an operation, so
+        the analysis is flow-insensitive."""
+        import re
+        txt = '\n'.join(body)
+        tainted = set(re.findall(r'SLet "([^"]+)" \((?:EField "[^"]+" \["[^"]+"\]|EMsg "[^"]+")\)', txt))
+        moves = re.findall(r'SLet "([^"]+)" \(EVar "([^"]+)"\)', txt)
+        # conditional expressions / and-or chains / list displays that may carry the copy on
+        carries = re.findall(r'SLet "([^"]+)" (\((?:EIf|EOr|EAnd|EList|EIndex) .*)', txt)
+        changed = True
+        while changed:
+            changed = False
+            for x, y in moves:
+                if y in tainted and x not in tainted:
+                    tainted.add(x)
+                    changed = True
+            for x, rhs in carries:
+                if x not in tainted and any(('(EVar %s)' % q(y)) in rhs.split('\n')[0] for y in tainted):
+                    tainted.add(x)
+                    changed = True
+        for kind, x in re.findall(r'\b(SSetAttr|SAppendAttr|SAppend|SSetKey) "([^"]+)"', txt):
+            if x in tainted:
+                raise Unsupp('a by-value copy of a message sub-object (%s) is mutated: reference semantics outside the fragment'
+                             % x.split('$')[0])
+        # the other direction: a local list / object stored into a message field (or an attribute of an instance) is
+        # stored BY VALUE in the model; Python stores the reference - a mutation of the local AFTER the store (textual
+        # order = execution order, loops being unrolled) would change the stored object too
+        stored = {}
+        for m in re.finditer(r'\b(?:SSetField "[^"]+" \[[^\]]*\]|SSetAttr "[^"]+" "[^"]+") \(EVar "([^"]+)"\)', txt):
+            stored.setdefault(m.group(1), m.start())
+        for m in re.finditer(r'\b(SSetAttr|SAppendAttr|SAppend|SSetKey) "([^"]+)"', txt):
+            x = m.group(2)
+            if x in stored and m.start() > stored[x]:
+                raise Unsupp('%s is mutated after it was stored in a message field / attribute: reference semantics outside '
+                             'the fragment' % x.split('$')[0])
+
     # ---- one operation ----
     def operation(self, clsname, fn, modname):
         mod = Mod.get(self.pkg, modname + '.py')
@@ -1438,9 +1852,32 @@ class Translator:
                 else:
                     params.append('(%s, Some %s)' % (q(p.arg), pv_of(mod.const_of(d))))
             c.ret = 'ret$'
-            self.nstmts = 0
             c.fn = fn
-            body = ['SLet "ret$" (EConst PNone)'] + self.block(self.strip_doc(fn.body), c)
+            body = None
+            for widened in (False, True):
+                # second attempt (only after a refusal): dead branches of tests that are constants of the translation are
+                # dropped and None arguments that a callee hands on are propagated - a restructured constructor chain
+                # (state.State) then still translates.  The first refusal is the one reported when both attempts fail.
+                self.widened = widened
+                self.nstmts = 0
+                ctry = Ctx(self, mod, 0, 'ipmi')
+                ctry.names, ctry.ret, ctry.fn = dict(c.names), c.ret, fn
+                tables_before = dict(self.tables_used)
+                try:
+                    body = ['SLet "ret$" (EConst PNone)'] + self.block(self.strip_doc(fn.body), ctry)
+                    self.check_copies(body)
+                    break
+                except (Unsupp, RecursionError) as e:
+                    body = None
+                    if not widened:
+                        first = e
+                        after_first = self.counter
+                    else:
+                        self.tables_used = tables_before
+            self.widened = False
+            if body is None:
+                self.counter = after_first
+                raise first
         except Unsupp as e:
             body = ['SUnsupported %s' % q(str(e))]
         except RecursionError:
